@@ -686,6 +686,38 @@ def r13_8(ctx: Ctx):
                         obs.append(ctx.ob("R13.8", g, c, status=st, detail=f"{g.short} builds {ci.name} and {why}" , construct=f"{ci.name}.{attr}:{g.short}"))
                     continue
                 obs.append(ctx.ob("R13.8", m, y, status=INCONCLUSIVE, detail=f"{ci.name}.{attr} = `{norm(v)[:60]}`: not recognisably the problem's direction", construct=f"{ci.name}.{attr}"))
+    # a direction-derived value cached at first use in an object that serves several problems: sprout filters / generators /
+    # stop conditions belong to the configuration and are shared by every tree built from it, also trees of the other direction
+    for ci in ctx.prog.classes.values():
+        if not ci.module.name.startswith(("pyhms.sprout", "pyhms.stop_conditions")):
+            continue
+        stores = {}
+        for m in ci.methods.values():
+            sn = m.self_name()
+            if sn is None or m.name == "__init__":
+                continue
+            for y in body_walk(m.node):
+                if isinstance(y, (ast.Assign, ast.AnnAssign)) and getattr(y, "value", None) is not None:
+                    for t in (y.targets if isinstance(y, ast.Assign) else [y.target]):
+                        if is_self_attr(t, None, sn) and any(isinstance(x, ast.Attribute) and x.attr in ("maximize", "_maximize") for x in ast.walk(y.value)):
+                            stores[t.attr] = (m, y)
+        for attr, (m, y) in stores.items():
+            lazy = None
+            for m2 in ci.methods.values():
+                sn2 = m2.self_name()
+                if sn2 is None:
+                    continue
+                for x in body_walk(m2.node):
+                    if isinstance(x, ast.If):
+                        t_ = x.test
+                        while isinstance(t_, ast.UnaryOp) and isinstance(t_.op, ast.Not):
+                            t_ = t_.operand
+                        if (isinstance(t_, ast.Compare) and is_self_attr(t_.left, attr, sn2) and len(t_.comparators) == 1 and isinstance(t_.comparators[0], ast.Constant) and t_.comparators[0].value is None) or is_self_attr(t_, attr, sn2) or (isinstance(t_, ast.Call) and norm(t_.func) == "hasattr" and len(t_.args) == 2 and isinstance(t_.args[1], ast.Constant) and t_.args[1].value == attr):
+                            lazy = lazy or x
+            if lazy is not None:
+                obs.append(ctx.ob("R13.8", m, y, status=VIOLATION, detail=f"{ci.name}.{attr} is derived from the problem's direction (`{norm(y)[:70]}`) the first time it is needed (`{norm(lazy.test)}`) and kept: the object belongs to the configuration and serves every tree built from it, so a later tree of the OTHER direction is decided with the first tree's direction", construct=f"{ci.name}.{attr}:lazy-direction"))
+            else:
+                obs.append(ctx.ob("R13.8", m, y, detail=f"{ci.name}.{attr} is recomputed from the problem's direction whenever {m.short} runs", construct=f"{ci.name}.{attr}:lazy-direction"))
     if not obs:
         obs.append(ctx.ob("R13.8", None, None, subject="pyhms", loc="-", detail="no object keeps its own copy of the optimisation direction: every switch reads the problem's live `maximize`", construct="no-kept-direction"))
     return obs
@@ -779,6 +811,37 @@ def r13_10(ctx: Ctx):
     if n < 1:
         # the sentinel is not spelled as a returned literal (a table, a local): nothing is returned unconditionally
         obs.append(ctx.ob("R13.10", None, None, subject="core.problem", loc="-", detail="no problem method returns a literal infinite value", construct="no-literal-inf"))
+    return obs
+
+
+def r13_11(ctx: Ctx):
+    """R13.11 the values handed to the direction-aware comparison are the fitness values themselves: an operand shifted by a
+    fixed-sign amount (`worse_than(f, best + TOLERANCE)`) relaxes the test in one direction and tightens it in the other, so
+    (f, max) and (-f, min) are decided differently."""
+    obs = []
+    n = 0
+    for f in ctx.prog.all_functions():
+        if f.name == "<module>":
+            continue
+        for c in body_walk(f.node):
+            if not (isinstance(c, ast.Call) and isinstance(c.func, ast.Attribute) and c.func.attr in ("worse_than", "equivalent") and len(c.args) == 2):
+                continue
+            if f.cls is not None and f.name == c.func.attr and ctx.prog.is_subclass(f.cls, ctx.prog.cls("Problem")) and norm(c.func.value).endswith("_inner"):
+                continue  # a wrapper forwarding the comparison
+            n += 1
+            shifted = None
+            for a in c.args:
+                if isinstance(a, ast.BinOp) and isinstance(a.op, (ast.Add, ast.Sub)):
+                    for side in (a.left, a.right):
+                        fixed = (isinstance(side, ast.Constant) and isinstance(side.value, (int, float)) and side.value != 0) or (isinstance(side, ast.Name) and side.id.isupper()) or (isinstance(side, ast.Attribute) and side.attr.isupper())
+                        if fixed:
+                            shifted = a
+            if shifted is not None:
+                obs.append(ctx.ob("R13.11", f, c, status=VIOLATION, detail=f"{f.short}: `{norm(c)[:90]}` compares a fitness shifted by a fixed-sign amount (`{norm(shifted)}`): under minimisation the shift makes the test easier to pass, under maximisation harder (or the reverse), so the decision on (f, max) differs from the one on (-f, min)", construct=f"{f.short}:shifted-operand"))
+            else:
+                obs.append(ctx.ob("R13.11", f, c, detail=f"{f.short}: compares the fitness values as they are", construct=f"{f.short}:shifted-operand", trivial=True))
+    if n < 2:
+        raise AnalysisError(f"only {n} calls of worse_than / equivalent found")
     return obs
 
 
@@ -920,4 +983,5 @@ RULES = [
     ("R13.8", r13_8, 1),
     ("R13.9", r13_9, 3),
     ("R13.10", r13_10, 1),
+    ("R13.11", r13_11, 2),
 ]
